@@ -176,7 +176,7 @@ c11_roundtrip!(c11_roundtrip_default, 12, Targets::new().with_default(filter(l0)
 c11_roundtrip!(c11_roundtrip_k1, 12, Targets::new().with_target("a", filter(l0)), [l0]);
 c11_roundtrip!(c11_roundtrip_k2, 12, Targets::new().with_target("a:", filter(l0)).with_default(filter(l1)), [l0, l1]);
 
-/// Finding candidate (NOT listed in props/C11.py; reported to the lead): the round trip `parse(display(T)) == T`
+/// Known finding `targets_stale_max_level` (props/C11.py kind="finding", KNOWN_FINDINGS.txt): the round trip `parse(display(T)) == T`
 /// needs T to equal the filter built from its *effective* directives (Display prints only those). After a duplicate
 /// key replaced a directive by a LOWER level, `DirectiveSet::max_level` keeps the old maximum, so the two filters
 /// compare unequal (`PartialEq`) and give different `max_level_hint`s although they enable exactly the same things.
